@@ -23,9 +23,17 @@ def rel(p):
     return os.path.relpath(p, fe.REPO)
 
 
+def fmt_req(e):
+    if e[0] == 'arg':
+        return 'arg%d' % (e[1] + 1)
+    if e[0] == 'const':
+        return str(e[1])
+    return '%s(%s, %s)' % (e[0], fmt_req(e[1]), fmt_req(e[2])) if e[0] == 'min' else '%s*%s' % (fmt_req(e[1]), fmt_req(e[2]))
+
+
 def parse_pre(s):
     """'$2->size >= $0->row'  /  '$0->row == $0->col'  ->  list of Poly (>= 0)"""
-    m = re.match(r'(.*?)(>=|==|<=|>|<)(.*)', s)
+    m = re.match(r'(.*?)\s(>=|==|<=|>|<)\s(.*)', s)
     if not m:
         raise ValueError('bad precondition ' + s)
     a, op, b = parse_lin(m.group(1)), m.group(2), parse_lin(m.group(3))
@@ -42,7 +50,7 @@ def parse_pre(s):
 
 def parse_lin(s):
     s = s.strip()
-    toks = re.findall(r'\$\d+(?:->\w+)*|\d+|[-+*]', s)
+    toks = re.findall(r'ext\(\$\d+\)|\$\d+(?:->\w+)*|\d+|[-+*]', s)
     p = Poly.const(0)
     sign = 1
     cur = None
@@ -65,6 +73,25 @@ def parse_lin(s):
     if cur is not None:
         p = p + cur * sign
     return p
+
+
+# Fortran LAPACK routines: name -> list of requirements.  ('ext', i, expr) : buffer argument i holds >= expr elements;
+# ('ge', expr_a, expr_b): a >= b.  Expressions are tuples over argument positions: ('arg', i) value of *arg_i,
+# ('mul', x, y), ('min', x, y), ('const', c).  (documented argument sizes of dgetrf/dgetri/dgesdd(jobz=S)/dgeev)
+def _A(i):
+    return ('arg', i)
+
+
+LAPACK = {
+    'dgetrf_': [('ext', 2, ('mul', _A(3), _A(1))), ('ge', _A(3), _A(0)), ('ext', 4, ('min', _A(0), _A(1)))],
+    'dgetri_': [('ext', 1, ('mul', _A(2), _A(0))), ('ge', _A(2), _A(0)), ('ext', 3, _A(0)), ('ge', _A(5), _A(0)), ('ext', 4, _A(5))],
+    'dgesdd_': [('ext', 3, ('mul', _A(4), _A(2))), ('ge', _A(4), _A(1)), ('ext', 5, ('min', _A(1), _A(2))),
+                ('ext', 6, ('mul', _A(7), ('min', _A(1), _A(2)))), ('ge', _A(7), _A(1)),
+                ('ext', 8, ('mul', _A(9), _A(2))), ('ge', _A(9), ('min', _A(1), _A(2))),
+                ('ext', 12, ('mul', ('const', 8), ('min', _A(1), _A(2))))],
+    'dgeev_': [('ext', 3, ('mul', _A(4), _A(2))), ('ge', _A(4), _A(2)), ('ext', 5, _A(2)), ('ext', 6, _A(2)),
+               ('ext', 9, ('mul', _A(10), _A(2))), ('ge', _A(10), _A(2))],
+}
 
 
 class Checker:
@@ -297,6 +324,9 @@ class Checker:
                 if vp and vct:
                     self.set_vec(eng, st, '%s->d[%s]' % (p, k), 'dvector', eng.shape(st, vp, vct).f['size'])
             return
+        if cn in LAPACK:
+            self.lapack_call(eng, node, cn, a, st)
+            return
         # ---- contracts of internal kernels
         g = self.prog.resolve(eng.f, cn)
         if g is None or g.body is None:
@@ -316,8 +346,16 @@ class Checker:
                         sh = eng.shape(st, p, ct)
                         for fld in CONTAINER[ct]:
                             sub['$%d->%s' % (i, fld)] = sh.f[fld]
+                elif '*' in fe.qual(strip(arg, casts=False)):
+                    s_ = strip(arg)
+                    if s_.get('kind') == 'DeclRefExpr' and eng.vname(s_['referencedDecl']) in st.raw:
+                        sub['ext($%d)' % i] = st.raw[eng.vname(s_['referencedDecl'])]
                 elif not fe.is_float_type(strip(arg, casts=False)):
                     sub['$%d' % i] = eng.ev(arg, st)
+            for ps in ctr.get('checked', []):
+                for poly in parse_pre(ps):
+                    if all(x in sub for x in poly.atoms()):
+                        st.add_fact(poly.subst(sub))      # the callee aborts cleanly otherwise
             for ps in ctr.get('pre', []):
                 for poly in parse_pre(ps):
                     if any(x not in sub for x in poly.atoms()):
@@ -408,6 +446,11 @@ class Checker:
                     if res is None:
                         res = cur
                     elif any(repr(res[f]) != repr(cur[f]) for f in cur):
+                        # equal by the facts of this exit state?
+                        fs = st.facts + eng.pre
+                        if all(prove_nonneg(res[f] - cur[f], fs, equalities=st.eqs) and prove_nonneg(cur[f] - res[f], fs, equalities=st.eqs)
+                               for f in cur):
+                            continue
                         res = False
                         break
                 if res:
@@ -417,6 +460,69 @@ class Checker:
         self._auto_active.discard(g.name)
         self._auto[g.name] = out
         return out
+
+    def lapack_call(self, eng, node, cn, a, st):
+        def val(i):
+            x = strip(a[i])
+            if x.get('kind') == 'UnaryOperator' and x.get('opcode') == '&':
+                return eng.ev(kids(x)[0], st)
+            return None
+
+        def ext(i):
+            x = strip(a[i])
+            if x.get('kind') == 'DeclRefExpr':
+                return st.raw.get(eng.vname(x['referencedDecl']))
+            return None
+
+        def alts(e):
+            """expression -> list of alternative Polys whose minimum is the value (min splits into alternatives)"""
+            if e[0] == 'arg':
+                v = val(e[1])
+                return None if v is None else [v]
+            if e[0] == 'const':
+                return [Poly.const(e[1])]
+            if e[0] == 'mul':
+                xa, ya = alts(e[1]), alts(e[2])
+                return None if xa is None or ya is None else [x * y for x in xa for y in ya]
+            if e[0] == 'min':
+                xa, ya = alts(e[1]), alts(e[2])
+                return None if xa is None or ya is None else xa + ya
+        for req in LAPACK[cn]:
+            if req[0] == 'ext':
+                have = ext(req[1])
+                need = alts(req[2])
+                what = 'argument %d of %s must hold at least %s elements' % (req[1] + 1, cn, fmt_req(req[2]))
+            else:
+                h = alts(req[1])
+                have = h[0] if h and len(h) == 1 else None
+                need = alts(req[2])
+                what = '%s requires %s >= %s' % (cn, fmt_req(req[1]), fmt_req(req[2]))
+            if have is None or need is None:
+                continue
+            self.min_obligation(eng, node, 'lapack:%s:%s' % (cn, what), have, need, st, what)
+
+    def min_obligation(self, eng, node, kind, have, need_alts, st, text):
+        """have >= min(need_alts): PROVED if have >= some alternative is provable; REFUTED if a witness makes have smaller
+        than every alternative"""
+        facts = st.facts + eng.pre
+        key = (id(node), kind)
+        from .shape import Obligation, RANK
+        status, wit, detail = 'UNDECIDED', None, 'cannot prove %s >= min%s' % (have, [repr(x) for x in need_alts])
+        if any(prove_nonneg(have - n_, facts, equalities=st.eqs) for n_ in need_alts):
+            status, detail = 'PROVED', ''
+        elif not st.lossy:
+            extra = [n_ - have - 1 for n_ in need_alts[1:]]
+            w = find_witness(need_alts[0] - have - 1, facts + extra, dom=eng.dom,
+                             opaque=lambda x: x.startswith('?') or x.startswith('sizeof'))
+            if isinstance(w, dict):
+                status, wit, detail = 'REFUTED', w, '%s is smaller than required: %s' % (have, text)
+        ob = eng.obligs.get(key)
+        if ob is None:
+            ob = Obligation(eng.f.name, node, kind, have, need_alts[0], eng.f.unit.where(node), text)
+            ob.status, ob.witness, ob.detail = status, wit, detail
+            eng.obligs[key] = ob
+        elif RANK[status] > RANK[ob.status]:
+            ob.status, ob.witness, ob.detail = status, wit, detail
 
     def need_slots(self, eng, node, p, sh, st, who):
         first = CONTAINER[sh.ctype][0]
